@@ -486,11 +486,13 @@ type ruleCase struct {
 	MayRefuse bool      `json:"may_refuse,omitempty"`
 	Lits      []litInfo `json:"lits,omitempty"` // the literals of the macro body: token kind, spelling, Go value
 	Left      bool      `json:"left_out,omitempty"`
-	d         *filt.DExpr
-	whereSrc  string // the Where() argument as written, when it is not d.Go() (a call of a group-local macro)
-	solo      bool   // run in its own engine (may panic or may fail to load)
-	wantJ     int    // probe function the rule is bound to (members of a law family share it: same site facts)
-	group     string // rules with the same group key share an engine
+	// ArgMacro: the constants are arguments of the macro call (the calls of the family's groups differ in them)
+	ArgMacro bool `json:"arg_macro,omitempty"`
+	d        *filt.DExpr
+	whereSrc string // the Where() argument as written, when it is not d.Go() (a call of a group-local macro)
+	solo     bool   // run in its own engine (may panic or may fail to load)
+	wantJ    int    // probe function the rule is bound to (members of a law family share it: same site facts)
+	group    string // rules with the same group key share an engine
 }
 
 // ---------------------------------------------------------------- shared-spelling families
@@ -727,6 +729,34 @@ type litInfo struct {
 	Lit   string `json:"lit"`
 	Int   *int64 `json:"int,omitempty"`
 	Plain bool   `json:"plain"`
+}
+
+// paramize: the instantiated tree with every constant replaced by a parameter name of name's choosing; text tells whether
+// the constant is compared with a Text (its parameter then has the type of Text)
+func paramize(d *filt.DExpr, text bool, name func(c *filt.DExpr, text bool) string) *filt.DExpr {
+	if d == nil {
+		return nil
+	}
+	c := *d
+	if d.K == "int" || d.K == "str" {
+		c.Raw = name(d, text)
+		return &c
+	}
+	cmp := d.K == "binary" && (kindOfOperandOf(d.X) == 3 || kindOfOperandOf(d.Y) == 3)
+	c.X = paramize(d.X, cmp, name)
+	c.Y = paramize(d.Y, cmp, name)
+	c.Args = nil
+	for _, a := range d.Args {
+		c.Args = append(c.Args, paramize(a, false, name))
+	}
+	return &c
+}
+
+func kindOfOperandOf(d *filt.DExpr) int {
+	if d == nil || (d.K != "sel" && d.K != "call") {
+		return -1
+	}
+	return kindOfOperand(d)
 }
 
 // respell: the instantiated tree with every constant written as a literal in a style of pick's choosing; spelled receives
@@ -1194,20 +1224,33 @@ func main() {
 		filt.Call("Text.Matches", "y", filt.RawStr("pat", "")),
 		filt.And(filt.Bin("GEQ", operand(2, "zs"), filt.RawInt("num", 0)), filt.Not(filt.Paren(filt.Bin("LSS", operand(1, "x"), filt.RawInt("limit", 0))))),
 	}
+	// families whose groups hand the constants to the local macro as ARGUMENTS (literals in every spelling, parenthesised, or
+	// the name of a local constant): an argument comes from the type-checked file, so every spelling must load and mean its value,
+	// and it must land in the parameter it is written for
+	argmac := []*filt.DExpr{
+		filt.And(filt.Bin("EQL", operand(2, "x"), filt.RawInt("num", 0)), filt.Bin("GEQ", operand(1, "y"), filt.RawInt("limit", 0))),
+		filt.Or(filt.Bin("EQL", operand(3, "x"), filt.RawStr("name", "")), filt.Call("Text.Matches", "y", filt.RawStr("pat", ""))),
+		filt.Bin("LSS", operand(1, "x"), filt.RawInt("limit", 0)),
+		filt.Or(filt.Bin("LEQ", operand(0, "x"), filt.RawInt("ln", 0)), filt.Not(filt.Paren(filt.Bin("NEQ", filt.RawInt("num", 0), operand(2, "zs"))))),
+	}
 	styledInt := []int{1, 2, 4, 3, 5, 6}
 	styledStr := []int{1, 2, 1, 2, 0, 1}
-	for f := 0; f < len(bare)+len(maclit)+*nshared; f++ {
+	for f := 0; f < len(bare)+len(maclit)+len(argmac)+*nshared; f++ {
 		fam := fmt.Sprintf("shared%d", f)
 		var tmpl *filt.DExpr
-		styled := false
+		styled, argMode := false, false
 		switch {
 		case f < len(bare):
 			tmpl = bare[f]
 		case f < len(bare)+len(maclit):
 			tmpl = maclit[f-len(bare)]
 			styled = true
+		case f < len(bare)+len(maclit)+len(argmac):
+			tmpl = argmac[f-len(bare)-len(maclit)]
+			argMode = true
 		default:
 			tmpl = g.namedTree(2 + rng.Intn(2))
+			argMode = f%8 == 6
 		}
 		used := map[string]bool{}
 		namesOf(tmpl, used)
@@ -1219,7 +1262,7 @@ func main() {
 		sf := &sharedFam{twoFiles: f%2 == 1}
 		// every fourth family reaches the filter through a group-local macro function `cond` (expanded by irconv):
 		// the call is spelled identically in all groups, the bodies differ in their literal constants
-		macro := f%4 == 2 || styled
+		macro := f%4 == 2 || styled || argMode
 		negated := styled && f%2 == 1
 		// which names are file-level constants (shadowed by some groups only)
 		fileLevel := map[string]bool{}
@@ -1279,7 +1322,47 @@ func main() {
 			spelled := map[string]string{}
 			plain := true
 			var lits []litInfo
-			if macro {
+			if argMode {
+				var params, args []string
+				consts := ""
+				body := paramize(d, false, func(c *filt.DExpr, text bool) string {
+					name := fmt.Sprintf("c%d", len(params))
+					var arg string
+					switch {
+					case c.K == "int":
+						params = append(params, name+" int")
+						arg = spellInt(c.Z, rng.Intn(nIntStyles), rng)
+					case text:
+						params = append(params, name+" dsl.MatchedText")
+						arg = spellStr(c.S, rng.Intn(3))
+					default:
+						params = append(params, name+" string")
+						arg = spellStr(c.S, rng.Intn(3))
+					}
+					switch rng.Intn(4) {
+					case 0:
+						arg = "(" + arg + ")"
+					case 1:
+						// the name of a constant of the group
+						kn := fmt.Sprintf("k%s", name)
+						if c.K == "str" && !text {
+							consts += fmt.Sprintf("\tconst %s string = %s\n", kn, arg)
+						} else {
+							consts += fmt.Sprintf("\tconst %s = %s\n", kn, arg)
+						}
+						arg = kn
+					}
+					if c.Raw != "" {
+						spelled[c.Raw] = arg
+					}
+					args = append(args, arg)
+					return name
+				})
+				src := strings.NewReplacer(`m["x"]`, "x", `m["y"]`, "y", `m["zs"]`, "zs").Replace(body.Go())
+				locals = consts + "\tcond := func(x, y, zs dsl.Var, " + strings.Join(params, ", ") + ") bool { return " + src + " }\n"
+				whereSrc = `cond(m["x"], m["y"], m["zs"], ` + strings.Join(args, ", ") + ")"
+				d = literal(d)
+			} else if macro {
 				// (irconv cannot see constant values of identifiers inside a macro body: the body spells the literals)
 				d, plain = respell(d, rng, func(isStr bool) int {
 					switch {
@@ -1304,7 +1387,7 @@ func main() {
 			}
 			c := &ruleCase{K: "rule", Idx: len(cases), Family: fam, Role: fmt.Sprintf("g%d", k), Src: d.Go(), Coq: d.Coq(), Atom: -1, d: d, whereSrc: whereSrc,
 				Accept: []int{}, Locals: locals, FileNo: fileNo, FileConsts: sf.fileSrc[fileNo], Tree: oracleTree(d, atomIndex),
-				Values: map[string]string{}, wantJ: j, group: "shared", solo: false, MayRefuse: !plain, Lits: lits}
+				Values: map[string]string{}, wantJ: j, group: "shared", solo: false, MayRefuse: !plain, Lits: lits, ArgMacro: argMode}
 			for n, v := range vals {
 				c.Values[n] = v.golit()
 				if lit, ok := spelled[n]; ok && lit != v.golit() {
